@@ -76,6 +76,8 @@ thread_local! {
     static HOOKS: RefCell<Option<Arc<dyn SimHooks>>> = const { RefCell::new(None) };
     static MUTED: Cell<u32> = const { Cell::new(0) };
     static GUARDS: Cell<u32> = const { Cell::new(0) };
+    /// (shard index or usize::MAX for "all shards", exclusive?) of the map guards this thread holds
+    static HELD: RefCell<Vec<(usize, bool)>> = const { RefCell::new(Vec::new()) };
 }
 
 /// Install a hook object on the calling thread; returns the previous one.
@@ -160,16 +162,44 @@ pub fn fingerprint<K: Hash + ?Sized>(k: &K) -> u64 {
     h.finish()
 }
 
-struct DepthGuard(PhantomData<*const ()>);
+struct DepthGuard(Option<(usize, bool)>, PhantomData<*const ()>);
 impl DepthGuard {
     fn new() -> Self {
         GUARDS.with(|g| g.set(g.get() + 1));
-        DepthGuard(PhantomData)
+        DepthGuard(None, PhantomData)
+    }
+    /// A guard that holds the lock of `shard` (usize::MAX: any shard), shared or exclusive.
+    fn holding(shard: usize, exclusive: bool) -> Self {
+        GUARDS.with(|g| g.set(g.get() + 1));
+        HELD.with(|h| h.borrow_mut().push((shard, exclusive)));
+        DepthGuard(Some((shard, exclusive)), PhantomData)
     }
 }
 impl Drop for DepthGuard {
     fn drop(&mut self) {
         GUARDS.with(|g| g.set(g.get() - 1));
+        if let Some(x) = self.0 {
+            HELD.with(|h| {
+                let mut h = h.borrow_mut();
+                if let Some(i) = h.iter().rposition(|y| *y == x) {
+                    h.remove(i);
+                }
+            });
+        }
+    }
+}
+
+/// A map operation that needs the lock of `shard` (exclusively or shared) while this very thread
+/// already holds a conflicting lock on it would block forever. Under the simulator that hang is
+/// turned into a panic, which the harness reports.
+fn check_self_deadlock(shard: usize, exclusive: bool) {
+    let conflict = HELD.with(|h| {
+        h.borrow()
+            .iter()
+            .any(|(s, ex)| (*s == shard || *s == usize::MAX) && (exclusive || *ex))
+    });
+    if conflict {
+        panic!("verif: self-deadlock: map operation on a shard whose lock this thread already holds");
     }
 }
 
@@ -362,6 +392,7 @@ pub mod map {
     /// Instrumented map: every call is one scheduling point, then the real `dashmap` call.
     pub struct DashMap<K, V> {
         inner: Inner<K, V>,
+        shards: usize,
     }
 
     /// Shared guard; while alive the owning thread is never descheduled.
@@ -567,6 +598,13 @@ pub mod map {
     }
 
     impl<K: Eq + Hash, V> DashMap<K, V> {
+        /// Index of the shard holding `key` (same formula as dashmap 6.x `determine_shard`).
+        fn shard_of<Q: Hash + ?Sized>(&self, key: &Q) -> usize {
+            let hash = self.inner.hash_usize(&key);
+            let shift = usize::BITS as usize - self.shards.trailing_zeros() as usize;
+            (hash << 7) >> shift
+        }
+
         /// See dashmap.  Hasher seed and shard count come from the simulator.
         pub fn new() -> Self {
             let (seed, shards) = match super::HOOKS.with(|c| c.borrow().clone()) {
@@ -575,6 +613,7 @@ pub mod map {
             };
             Self {
                 inner: Inner::with_hasher_and_shard_amount(SeededState(seed), shards),
+                shards,
             }
         }
         /// See dashmap.
@@ -586,6 +625,7 @@ pub mod map {
         pub fn insert(&self, key: K, value: V) -> Option<V> {
             let fp = fingerprint(&key);
             step(Site::MapInsert, fp);
+            super::check_self_deadlock(self.shard_of(&key), true);
             let r = self.inner.insert(key, value);
             after(Site::MapInsert, fp, r.is_some() as u64);
             r
@@ -598,6 +638,7 @@ pub mod map {
         {
             let fp = fingerprint(key);
             step(Site::MapRemove, fp);
+            super::check_self_deadlock(self.shard_of(key), true);
             let r = self.inner.remove(key);
             after(Site::MapRemove, fp, r.is_some() as u64);
             r
@@ -610,7 +651,8 @@ pub mod map {
         {
             let fp = fingerprint(key);
             step(Site::MapRemove, fp);
-            let _g = DepthGuard::new();
+            super::check_self_deadlock(self.shard_of(key), true);
+            let _g = DepthGuard::holding(self.shard_of(key), true);
             let r = self.inner.remove_if(key, f);
             after(Site::MapRemove, fp, r.is_some() as u64);
             r
@@ -627,7 +669,8 @@ pub mod map {
         {
             let fp = fingerprint(key);
             step(Site::MapRemove, fp);
-            let _g = DepthGuard::new();
+            super::check_self_deadlock(self.shard_of(key), true);
+            let _g = DepthGuard::holding(self.shard_of(key), true);
             let r = self.inner.remove_if_mut(key, f);
             after(Site::MapRemove, fp, r.is_some() as u64);
             r
@@ -640,9 +683,11 @@ pub mod map {
         {
             let fp = fingerprint(key);
             step(Site::MapGet, fp);
+            let shard = self.shard_of(key);
+            super::check_self_deadlock(shard, false);
             let r = self.inner.get(key).map(|inner| Ref {
                 inner,
-                _g: DepthGuard::new(),
+                _g: DepthGuard::holding(shard, false),
             });
             after(Site::MapGet, fp, r.is_some() as u64);
             r
@@ -655,9 +700,11 @@ pub mod map {
         {
             let fp = fingerprint(key);
             step(Site::MapGet, fp);
+            let shard = self.shard_of(key);
+            super::check_self_deadlock(shard, true);
             let r = self.inner.get_mut(key).map(|inner| RefMut {
                 inner,
-                _g: DepthGuard::new(),
+                _g: DepthGuard::holding(shard, true),
             });
             after(Site::MapGet, fp, r.is_some() as u64);
             r
@@ -670,6 +717,7 @@ pub mod map {
         {
             let fp = fingerprint(key);
             step(Site::MapGet, fp);
+            super::check_self_deadlock(self.shard_of(key), false);
             let r = self.inner.contains_key(key);
             after(Site::MapGet, fp, r as u64);
             r
@@ -701,37 +749,43 @@ pub mod map {
         /// See dashmap.
         pub fn retain(&self, f: impl FnMut(&K, &mut V) -> bool) {
             step(Site::MapOther, 0);
-            let _g = DepthGuard::new();
+            super::check_self_deadlock(usize::MAX, true);
+            let _g = DepthGuard::holding(usize::MAX, true);
             self.inner.retain(f)
         }
         /// See dashmap.
         pub fn clear(&self) {
             step(Site::MapOther, 0);
+            super::check_self_deadlock(usize::MAX, true);
             self.inner.clear()
         }
         /// See dashmap.
         pub fn len(&self) -> usize {
             step(Site::MapLen, 0);
+            super::check_self_deadlock(usize::MAX, false);
             self.inner.len()
         }
         /// See dashmap.
         pub fn is_empty(&self) -> bool {
             step(Site::MapLen, 0);
+            super::check_self_deadlock(usize::MAX, false);
             self.inner.is_empty()
         }
         /// See dashmap.
         pub fn iter(&self) -> Iter<'_, K, V> {
             step(Site::MapIter, 0);
+            super::check_self_deadlock(usize::MAX, false);
             Iter {
-                _g: DepthGuard::new(),
+                _g: DepthGuard::holding(usize::MAX, false),
                 inner: self.inner.iter(),
             }
         }
         /// See dashmap.
         pub fn iter_mut(&self) -> IterMut<'_, K, V> {
             step(Site::MapIter, 0);
+            super::check_self_deadlock(usize::MAX, true);
             IterMut {
-                _g: DepthGuard::new(),
+                _g: DepthGuard::holding(usize::MAX, true),
                 inner: self.inner.iter_mut(),
             }
         }
@@ -739,8 +793,10 @@ pub mod map {
         pub fn entry(&self, key: K) -> Entry<'_, K, V> {
             let fp = fingerprint(&key);
             step(Site::MapOther, fp);
+            let shard = self.shard_of(&key);
+            super::check_self_deadlock(shard, true);
             Entry {
-                g: DepthGuard::new(),
+                g: DepthGuard::holding(shard, true),
                 inner: self.inner.entry(key),
             }
         }
